@@ -43,7 +43,10 @@ def correspondence(ctx):
     for k in range(nrec + len(many)):
         r = many[k - nrec] if k >= nrec else chargen.gen_recipe(rng)
         b = rng.choice(chargen.BUDGETS) if k < nrec else chargen.DEFAULT_BUDGET
-        for words, feat in chargen.make_tapes(rng, r, b, want=3):
+        tapes = chargen.make_tapes(rng, r, b, want=3)
+        if len(r.live_families()) >= 9:
+            tapes = tapes + chargen.each_set_missed_tapes(rng, r)
+        for words, feat in tapes:
             meta = {"recipe": r.to_json(), "budget": b, "words": words if len(words) <= 64 else words[:64] + ["..."], "features": feat}
             meta["_recipe"] = r
             meta["_words"] = words
